@@ -98,6 +98,41 @@ HAND_TEXTS = [
     ("generics-empty", "#[derive(::educe::Educe)]\n#[educe(Debug, Clone, PartialEq, Eq, PartialOrd, Ord, Hash, Default)]\npub struct Ty<> {\n    pub a: u8,\n}\n"),
     ("generics-trailing", "#[derive(::educe::Educe)]\n#[educe(Debug, Clone, PartialEq, Hash)]\npub struct Ty<T: Sized +, const N: usize,> where for<> T: Sized, {\n    pub a: [T; N],\n}\n"),
     ("generics-paren-bound", "#[derive(::educe::Educe)]\n#[educe(Debug, Clone, PartialEq, Eq, PartialOrd, Ord, Hash, Default)]\npub enum Ty<T: (Sized)> {\n    #[educe(Default)]\n    V { a: T },\n}\n"),
+    # (round 7) the custom method of Debug is an ordinary path of the impl: Self, the impl's own bound, Self predicates
+    ("debug-method-self", "#[derive(::educe::Educe)]\n#[educe(Debug)]\npub struct Ty {\n    #[educe(Debug(method = Self::show))]\n    pub a: u8,\n}\n"
+                          "impl Ty {\n    fn show(v: &u8, f: &mut ::core::fmt::Formatter<'_>) -> ::core::fmt::Result { ::core::fmt::Debug::fmt(v, f) }\n}\n"),
+    ("debug-method-needs-custom-bound", "pub trait Tr { fn name(&self) -> &'static str; }\n"
+                                        "pub fn show<T: Tr>(v: &T, f: &mut ::core::fmt::Formatter<'_>) -> ::core::fmt::Result { f.write_str(v.name()) }\n"
+                                        "#[derive(::educe::Educe)]\n#[educe(Debug(bound(T: Tr)))]\npub struct Ty<T> {\n    #[educe(Debug(method(show)))]\n    pub a: T,\n}\n"),
+    ("debug-method-self-predicate", "pub trait Mk {}\npub fn any<T>(_v: &T, f: &mut ::core::fmt::Formatter<'_>) -> ::core::fmt::Result { f.write_str(\"a\") }\n"
+                                    "#[derive(::educe::Educe)]\n#[educe(Debug, Clone)]\npub struct Ty<T> where Self: Mk {\n    #[educe(Debug(method(any)))]\n    pub a: T,\n}\n"),
+    ("debug-method-self-in-field-type", "pub fn any<T>(_v: &T, f: &mut ::core::fmt::Formatter<'_>) -> ::core::fmt::Result { f.write_str(\"a\") }\n"
+                                        "#[derive(::educe::Educe)]\n#[educe(Debug)]\npub enum Ty {\n    V(#[educe(Debug(method(any)))] ::core::option::Option<::std::boxed::Box<Self>>, u8),\n    W,\n}\n"),
+    ("debug-method-coerces", "pub fn sm(v: &str, f: &mut ::core::fmt::Formatter<'_>) -> ::core::fmt::Result { f.write_str(v) }\n"
+                             "pub fn lm(v: &[u8], f: &mut ::core::fmt::Formatter<'_>) -> ::core::fmt::Result { ::core::fmt::Debug::fmt(&v.len(), f) }\n"
+                             "#[derive(::educe::Educe)]\n#[educe(Debug)]\npub struct Ty {\n    #[educe(Debug(method(sm)))]\n    pub a: ::std::string::String,\n"
+                             "    #[educe(Debug(method(lm)))]\n    pub b: ::std::vec::Vec<u8>,\n}\n"),
+    ("method-path-type-style", "pub struct Hh<T>(pub T);\nimpl<T> Hh<T> {\n    pub fn fl(v: &u8, f: &mut ::core::fmt::Formatter<'_>) -> ::core::fmt::Result { ::core::fmt::Debug::fmt(v, f) }\n}\n"
+                               "#[derive(::educe::Educe)]\n#[educe(Debug)]\npub struct Ty {\n    #[educe(Debug(method(Hh<u16>::fl)))]\n    pub a: u8,\n"
+                               "    #[educe(Debug(method(\"Hh<u32>::fl\")))]\n    pub b: u8,\n    #[educe(Debug(method = \"Hh<u64>::fl\"))]\n    pub c: u8,\n"
+                               "    #[educe(Debug(method = Hh::<u8>::fl))]\n    pub d: u8,\n}\n"),
+    ("raw-type-parameter", "#[derive(::educe::Educe)]\n#[educe(Debug, Clone, PartialEq, Hash, Default)]\npub struct Ty<r#T, U>(pub T, pub r#U);\n"),
+    ("macro-discriminants", "macro_rules! mk { ($n:ident, $a:expr, $b:literal) => {\n#[derive(::educe::Educe)]\n#[educe(PartialEq, Eq, PartialOrd, Ord)]\n"
+                            "pub enum $n {\n    A = $a,\n    B = $b,\n    C = -$b,\n    D,\n}\n} }\nmk!(Ty, 5, 2);\n"),
+    ("macro-lifetime-twins", "macro_rules! mk { ($t:ty) => {\n#[derive(::educe::Educe)]\n#[educe(Debug, Clone, PartialEq)]\n"
+                             "pub struct Ty<'a, 'b, T> {\n    pub a: $t,\n    pub b: &'b T,\n}\n} }\nmk!(&'a T);\n"),
+    ("const-only-lifetime-twins", "#[derive(::educe::Educe)]\n#[educe(Debug, Clone, PartialEq, Hash)]\npub struct Ty<'a, 'b, const N: usize> {\n"
+                                  "    pub head: &'a [u8; N],\n    pub tail: &'b [u8; N],\n}\n"),
+    ("macro-crate-paths", "pub struct Level(pub u8);\nimpl ::core::default::Default for Level { fn default() -> Self { Level(3) } }\n"
+                          "#[derive(Default, Debug, Clone, PartialEq)]\npub struct Slot<T>(pub T);\n"
+                          "macro_rules! mk { ($n:ident) => {\n#[derive(::educe::Educe)]\n#[educe(Default, Debug, Clone, PartialEq)]\n"
+                          "pub struct $n<T> {\n    pub a: $crate::Slot<T>,\n    pub b: $crate::Slot<u8>,\n}\n} }\nmk!(Ty);\n".replace("$crate::Slot", "$crate::hand_macro_crate_paths::Slot")),
+    ("box-dyn-partial-eq", "pub trait Ob { fn id(&self) -> u8; }\nimpl ::core::cmp::PartialEq for dyn Ob { fn eq(&self, o: &Self) -> bool { self.id() == o.id() } }\n"
+                           "#[derive(::educe::Educe)]\n#[educe(PartialEq)]\npub struct Ty {\n    pub a: ::std::boxed::Box<dyn Ob>,\n    pub b: ::std::rc::Rc<dyn Ob>,\n}\n"
+                           "#[derive(::educe::Educe)]\n#[educe(PartialEq)]\npub enum Ty2 {\n    V(::std::boxed::Box<dyn Ob>, u8),\n    W { x: ::std::sync::Arc<dyn Ob> },\n}\n"),
+    ("deref-dyn-with-lifetime", "pub trait Ob {}\n#[derive(::educe::Educe)]\n#[educe(Deref)]\npub struct Ty<'a>(pub &'a dyn Ob);\n"
+                                "#[derive(::educe::Educe)]\n#[educe(Deref, DerefMut)]\npub struct Ty2<'a>(pub u8, #[educe(Deref, DerefMut)] pub &'a mut (dyn Ob + 'a));\n"
+                                "#[derive(::educe::Educe)]\n#[educe(Deref, DerefMut)]\npub enum Ty3<'a, 'b> {\n    V(&'a mut &'b mut (dyn Ob + Send)),\n    W { #[educe(Deref, DerefMut)] x: &'b mut (dyn Ob + Send), y: u8 },\n}\n"),
     ("two-lifetimes-no-parameter", "#[derive(::educe::Educe)]\n#[educe(Debug, Clone, PartialEq, Eq, PartialOrd, Ord, Hash)]\n"
                                    "pub struct Ty<'a, 'b> {\n    pub a: &'a str,\n    pub b: &'b str,\n}\n"),
 ]
